@@ -61,6 +61,9 @@ CLAIMS["C16"] = ("explicit enumeration of arities x completion orders x failing 
 CLAIMS["C17"] = ("exhaustive differential enumeration operator x value x operand on the real code, plus schedule enumeration for pending futures under a virtual clock",
     "Every forwarded operation (19 binary incl. 3-argument pow, 2-argument round, item set/del; 21 unary/attribute/method incl. unknown attributes and dunders) x 16 values of all builtin kinds and a user class x 15 operands x {resolved, failed, failed with AttributeError} is evaluated on the proxy and on the plain value (same value and type, or same exception type): ~9 700 evaluations. Under the scheduler: nine non-forwarded operations must return at t=0 with the future still pending, eight forwarded ones must raise TimeoutError at exactly the configured virtual time and return the right value when another thread resolves the future later; f_nocancel over probe / cooperative / done / retrying futures: cancel() False in every schedule (d<=2), input never cancelled, outcome mirrored.",
     "DESIGN.md section 6 C17")
+CLAIMS["C19"] = ("exhaustive program enumeration with a paired-program differential oracle, executed on the real code under the controlled scheduler",
+    "All with_* chains (7 layer types) of total length <=2 (quick) / <=3 (thorough) split before/after bind()/flat_bind(), x six kinds of callable (function, keyword partial, positional partial, callable object, callable object exposing .func, future-returning) x argument lists: the bound form and the submit form are built and run side by side and must give equal outcomes and equal invocation logs; flat_bind must flatten. Names: every chain of 1-3 layers containing a thread-creating layer, with an explicit name at each position or none, bind() at each position, over sync and thread-pool bases: the names of the threads created must equal the inherited names.",
+    "DESIGN.md section 6 C19")
 NOT_YET = {}
 
 props = [json.loads(l) for l in open(os.path.join(HERE, "properties.jsonl"))]
